@@ -72,7 +72,7 @@ def variants(props: list[str], kinds: set[str]) -> list[dict]:
         for f in kf['findings']:
             if f.get('status') == 'fixed' and f.get('commit') and f['property'] in props and (f['commit'], f['property']) not in seen:
                 seen.add((f['commit'], f['property']))
-                out.append({'prop': f['property'], 'name': 'revert:%s@%s' % (f['id'].rstrip('bcde'), f['commit']), 'kind': 'mutant', 'revert': f['commit'], 'expect': f['key'].split('|')[0]})
+                out.append({'prop': f['property'], 'name': 'revert:%s@%s' % (f['id'].rstrip('bcde'), f['commit']), 'kind': 'mutant', 'revert': f['commit'], 'expect': f['property'] + '.'})
     if 'mutant' in kinds or 'twin' in kinds:
         from selftest.variants import VARIANTS
 
